@@ -160,6 +160,28 @@ func (c *Ctx) checkLockPairing(rule string, pkgs []string, eng *lockEngine) {
 		n++
 		la := eng.analyze(fn)
 		c.sawFunc(c.fnKey(fn))
+		if len(la.requires) > 0 {
+			// a function that releases (or relies on) a lock it did not take is sound only if every
+			// call is a static call whose lockset was verified; closures and method values are not
+			escapes := fn.Parent() != nil
+			if !escapes {
+				for _, g := range c.AllFuncs {
+					instrsOf(g, func(in ssa.Instruction) {
+						for _, op := range in.Operands(nil) {
+							if op != nil && *op == ssa.Value(fn) {
+								if ci, isCall := in.(ssa.CallInstruction); !isCall || staticCallee(ci) != fn {
+									escapes = true
+								}
+							}
+						}
+					})
+				}
+			}
+			if escapes || len(c.staticCallSites()[fn]) == 0 {
+				nBad++
+				c.bad(rule, c.fnKey(fn), fn.Pos(), fmt.Sprintf("the function releases %s without having taken it, and it is called through a function value or interface, so no caller can be shown to hold it: unlock of an unlocked mutex (runtime fatal error) or an unprotected critical section", la.requires))
+			}
+		}
 		for i, pr := range la.problems {
 			nBad++
 			c.bad(rule, c.fnKey(fn), la.probPos[i].Pos(), pr+": a later user of this lock blocks forever, or the critical section is left unprotected", c.describe(la.probPos[i]))
